@@ -47,6 +47,11 @@ def run(report, db, tier):
            "(C16's teardown rule)",
            lambda rid, c: c.startswith('teardown:'),
            lambda sub: c16.r5(sub, db, cg, M, S))
+    borrow(report, 'R14.5r', "'unless a handler has already started a new "
+           "one': the flag test and the close are one critical section, so "
+           "a connection begun meanwhile is not the one closed (C16's rule)",
+           lambda rid, c: c.startswith('dispatch:'),
+           lambda sub: c16.r8(sub, db, cg, M, S))
 
 
 def sy(n):
